@@ -157,6 +157,14 @@ public:
   }
   // the instance whose guest code is executing on this thread (for guest functions)
   static mbox* current() { return td().sandbox; }
+  // number of membership queries the library made to an instance that is not created (destroyed or never created):
+  // the live-sandbox registry must never hand such an instance to the backend
+  static long& dead_queries()
+  {
+    static long n = 0;
+    return n;
+  }
+
 
   // ---- harness-visible state (this is harness code, so public on purpose) ------------------
   uintptr_t base = 0;
@@ -260,8 +268,10 @@ protected:
     MBOX_YIELD("destroy");
     if (mapping) munmap(mapping, mapping_len);
     mapping = nullptr;
-    base = 0;
+    // like a production backend, a destroyed instance keeps its stale base: if the library still consults it, it
+    // "claims" its old address range (and the query is counted, see dead_queries())
     index = -1;
+    MBOX_YIELD("destroy-done");
   }
 
   template<typename T>
@@ -333,6 +343,7 @@ protected:
 
   inline bool impl_is_pointer_in_sandbox_memory(const void* p)
   {
+    if (!mapping) __atomic_add_fetch(&dead_queries(), 1, __ATOMIC_RELAXED);
     MBOX_YIELD("in_sandbox");
     auto a = reinterpret_cast<uintptr_t>(p);
     return base != 0 && a >= base && a - base < kSize;
